@@ -41,6 +41,7 @@ pub fn replay(args: &[String]) {
             // a million spreads away from the origin: the values themselves are still exact in f32, sums of more than 16 are not
             Variant { name: "very-far", p_total: 2, p_idx: 0, alpha: 1.0, beta: 1048576.0 },
             Variant { name: "among-others", p_total: 8, p_idx: 5, alpha: 1.0, beta: 0.0 },
+            Variant { name: "tiny", p_total: 2, p_idx: 1, alpha: 9.5367431640625e-7, beta: 0.0 },
         ]
     } else {
         vec![
@@ -48,10 +49,19 @@ pub fn replay(args: &[String]) {
             Variant { name: "among-others", p_total: 3, p_idx: 1, alpha: 1.0, beta: 0.0 },
             Variant { name: "affine", p_total: 2, p_idx: 0, alpha: -2.5, beta: 7.0 },
             Variant { name: "scaled", p_total: 4, p_idx: 3, alpha: 0.001, beta: 0.01 },
+            // any scale: units of 2^-20 (W of the order of 1e-12) and of 2^20 -- powers of two, the scaled draws are exact
+            Variant { name: "tiny", p_total: 2, p_idx: 1, alpha: 9.5367431640625e-7, beta: 0.0 },
+            Variant { name: "huge", p_total: 2, p_idx: 0, alpha: 1048576.0, beta: 0.0 },
             Variant { name: "far", p_total: 2, p_idx: 1, alpha: 1.0, beta: 3000.0 },
             Variant { name: "very-far", p_total: 2, p_idx: 0, alpha: 1.0, beta: 1048576.0 },
         ]
     };
+    // the diagnostics fan out over parameters with rayon: the same call from a plain thread (default pool) and from inside
+    // pools of 1..3 threads (fewer jobs than parameters) -- the schedule is not an input of the diagnostics
+    let mut pools: Vec<Option<(usize, rayon::ThreadPool)>> = vec![None];
+    for k in if big { vec![1usize, 2, 3] } else { vec![1usize] } {
+        pools.push(Some((k, rayon::ThreadPoolBuilder::new().num_threads(k).build().unwrap())));
+    }
     let mut evals = 0u64;
     let (mut rhat_bad, mut ess_bad, mut sum_bad) = (vec![], vec![], vec![]);
     let (mut n_rhat, mut n_ess, mut n_frag, mut n_undef) = (0u64, 0u64, 0u64, 0u64);
@@ -65,16 +75,21 @@ pub fn replay(args: &[String]) {
         let brief = || -> Value {
             if a[0].len() > 16 { json!({"case": c["case"], "C": a.len(), "N": a[0].len()}) } else { json!({"a": a}) }
         };
-        for v in &variants {
+        for (v, pool) in variants.iter().flat_map(|v| pools.iter().map(move |p| (v, p))) {
+            // a call from inside a small rayon pool is made with the variants that have enough parameters to share a job
+            if pool.is_some() && v.p_total < 3 {
+                continue;
+            }
+            let vname: String = match pool { None => v.name.to_string(), Some((k, _)) => format!("{} [called inside a {k}-thread rayon pool]", v.name) };
             // "far": the chain means themselves are only known to beta * 2^-24 in f32, which limits the between-chain term
             let tol = if v.name == "plain" || v.name == "among-others" { rtol } else if v.name == "far" || v.name == "very-far" { 5e-3 } else { rtol * 8.0 };
             let arr = build(&a, v, 1);
-            let r = catch(|| split_rhat_mean_ess(arr.view()));
+            let r = catch(|| match pool { None => split_rhat_mean_ess(arr.view()), Some((_, p)) => p.install(|| split_rhat_mean_ess(arr.view())) });
             evals += 1;
             let (rh, es) = match r {
                 Ok(x) => x,
                 Err(e) => {
-                    rhat_bad.push(json!({"case": brief(), "variant": v.name, "panic": e}));
+                    rhat_bad.push(json!({"case": brief(), "variant": vname, "panic": e}));
                     continue;
                 }
             };
@@ -87,7 +102,7 @@ pub fn replay(args: &[String]) {
             n_rhat += 1;
             let close = |x: f64, e: f64| (x - e).abs() <= tol * e.abs() + 1e-9;
             if !(close(r2, e1) || close(r2, e2)) && rhat_bad.len() < 20 {
-                rhat_bad.push(json!({"case": brief(), "variant": v.name, "rhat": rh[v.p_idx],
+                rhat_bad.push(json!({"case": brief(), "variant": vname, "rhat": rh[v.p_idx],
                     "rhat_sq": r2, "expected_sq": e1, "expected_sq_unbiasedW": e2}));
             }
             if c["frag"].as_bool().unwrap() {
@@ -106,12 +121,12 @@ pub fn replay(args: &[String]) {
                 let kappa = (e / f("mn")).abs().max(1.0);
                 let etol = (if v.name == "far" || v.name == "very-far" { 3e-2 } else { tol * 4.0 }) * kappa;
                 if !close(x, e) && (x - e).abs() > etol * e.abs() && ess_bad.len() < 20 {
-                    ess_bad.push(json!({"case": brief(), "variant": v.name, "ess": x, "expected": e}));
+                    ess_bad.push(json!({"case": brief(), "variant": vname, "ess": x, "expected": e}));
                 }
             }
             // the same draws as f64 / i64 values far from the origin (1e9: the spacing of f32 numbers there is 64): the
             // diagnostics are shift-invariant, and the element type is the caller's, not f32
-            if v.name == "plain" {
+            if v.name == "plain" && pool.is_none() {
                 let shape = (a.len(), a[0].len(), 1usize);
                 let a64 = ndarray::Array3::<f64>::from_shape_fn(shape, |(ci, t, _)| a[ci][t] as f64 + 1.0e9);
                 let ai = ndarray::Array3::<i64>::from_shape_fn(shape, |(ci, t, _)| a[ci][t] + 1_700_000_000);
@@ -131,27 +146,27 @@ pub fn replay(args: &[String]) {
                 }
             }
             // independence of the other parameters' values
-            if v.p_total > 1 {
+            if v.p_total > 1 && pool.is_none() {
                 let arr2 = build(&a, v, 99);
                 if let Ok((rh2, es2)) = catch(|| split_rhat_mean_ess(arr2.view())) {
                     // (equal infinities -- tau exactly zero -- are the same value)
                     let same = |x: f32, y: f32| x == y || (x - y).abs() <= 1e-5 * x.abs().max(1e-30) || (x.is_nan() && y.is_nan());
                     if !same(rh[v.p_idx], rh2[v.p_idx]) && rhat_bad.len() < 20 {
-                        rhat_bad.push(json!({"case": brief(), "variant": v.name, "other_params_changed_rhat": [rh[v.p_idx], rh2[v.p_idx]]}));
+                        rhat_bad.push(json!({"case": brief(), "variant": vname, "other_params_changed_rhat": [rh[v.p_idx], rh2[v.p_idx]]}));
                     }
                     if !same(es[v.p_idx], es2[v.p_idx]) && ess_bad.len() < 20 {
-                        ess_bad.push(json!({"case": brief(), "variant": v.name, "other_params_changed_ess": [es[v.p_idx], es2[v.p_idx]]}));
+                        ess_bad.push(json!({"case": brief(), "variant": vname, "other_params_changed_ess": [es[v.p_idx], es2[v.p_idx]]}));
                     }
                 }
                 // run summary = summary of the per-parameter values
                 match catch(|| RunStats::from(arr.view())) {
-                    Err(e) => sum_bad.push(json!({"case": brief(), "variant": v.name, "runstats_panic": e})),
+                    Err(e) => sum_bad.push(json!({"case": brief(), "variant": vname, "runstats_panic": e})),
                     Ok(rs) => {
                         if rh.iter().all(|x| x.is_finite()) && es.iter().all(|x| x.is_finite()) {
                             let mx = rh.iter().cloned().fold(f32::MIN, f32::max);
                             let mn = rh.iter().cloned().fold(f32::MAX, f32::min);
                             if (rs.rhat.max != mx || rs.rhat.min != mn) && sum_bad.len() < 20 {
-                                sum_bad.push(json!({"case": brief(), "variant": v.name, "rhat_minmax": [rs.rhat.min, rs.rhat.max], "true": [mn, mx]}));
+                                sum_bad.push(json!({"case": brief(), "variant": vname, "rhat_minmax": [rs.rhat.min, rs.rhat.max], "true": [mn, mx]}));
                             }
                         }
                     }
